@@ -19,9 +19,9 @@ STREAMS = {
     'threads': {'quick': 7500, 'thorough': 300000, 'chunk': 100},
     'nest': {'quick': 7500, 'thorough': 250000, 'chunk': 150},
     # every step k of evaluation A: A runs k steps, B runs one complete evaluation, A resumes
-    'sweep': {'quick': 480, 'thorough': 25000, 'chunk': 10, 'selftest_max': 12},
+    'sweep': {'quick': 420, 'thorough': 25000, 'chunk': 10, 'selftest_max': 12},
     # histories of registrations (set_variable / set_function / on / once / off) interleaved over 2-3 parsers
-    'isolation': {'quick': 3500, 'thorough': 200000, 'chunk': 150},
+    'isolation': {'quick': 3000, 'thorough': 200000, 'chunk': 150},
 }
 CLOCK0 = '2024-02-29T13:14:15.161718'
 
@@ -47,7 +47,7 @@ def gen_sweep(rng, i):
                                                             {'slots': [1], 'tasks': [[1, forms[1]]]}],
             'clock': CLOCK0, 'rand': 0.25, 'samefn': same, 'swap': rng.random() < 0.5,
             'points': rng.choice(['all', 'function_body', 'function_body', 'function_body', 'function_body', 'function_body',
-                                  'function_body', 'function_body', 'function_body', 'function_body', 'overlap2', 'overlap2'])}
+                                  'function_body', 'function_body', 'function_body', 'cold', 'overlap2', 'overlap2'])}
 
 
 ISO_VARS = ['va', 'vb', 'Rate']
@@ -208,8 +208,21 @@ def gen(stream, rng, i, cfg):
             a, b = th['slots']
             slots[a]['functions']['NEST0'] = [{'a': 'nested', 'slot': b, 'f': formgen.g3_tree(rng, scen.slot_env(slots[b]), 2)}]
             th['tasks'].append([a, 'NEST0()' + rng.choice(['', '+1', '&"x"'])])
+    cross = False
+    if nthreads >= 2 and rng.random() < 0.10:
+        # cross-nesting: a callback of thread t evaluates on a parser that thread u is using at the same time (and,
+        # half of the time, vice versa - the order in which two evaluations each wait for the other's parser)
+        cross = True
+        pairs = [(0, 1), (1, 0)] if rng.random() < 0.5 else [(0, 1)]
+        for (t, u) in pairs:
+            a, b = threads[t]['slots'][0], threads[u]['slots'][0]
+            envb = scen.slot_env(slots[b])
+            envb.functions = dict((k_, v_) for k_, v_ in envb.functions.items() if 'NEST' not in k_)
+            slots[a]['functions']['XNEST'] = [{'a': 'nested', 'slot': b, 'f': formgen.g3_tree(rng, envb, 1)}]
+            threads[t]['tasks'].append([a, rng.choice(['XNEST()+1', 'SUM(1,XNEST())', 'XNEST()&"x"'])])
+            threads[t].setdefault('also_needs', []).append(b)
     sc = {'engine': 'threads', 'slots': slots, 'threads': threads, 'clock': CLOCK0, 'rand': rng.choice([0.0, 0.25, 0.75]),
-          'samefn': samefn,
+          'samefn': samefn, 'cross': cross,
           'opcode': False}   # bytecode granularity dropped: see DESIGN 2.3 (not deterministic on 3.12)
     rng.random()     # (keeps the stream of draws stable after the opcode option was removed)
     kind = rng.choice(['random', 'random', 'single', 'pingpong'])
@@ -377,7 +390,8 @@ def execute_threads(sc, stats):
     solo, solo_logs = [], [None] * nslots
     refclock = StepClock()
     for t, th in enumerate(threads):
-        specs = [sc['slots'][k] if k in th['slots'] else None for k in range(nslots)]
+        needed = set(th['slots']) | set(th.get('also_needs', []))
+        specs = [sc['slots'][k] if k in needed else None for k in range(nslots)]
         w = World(specs, logging=True)
         solo.append([_eval(w, refclock, s, f, elems) for s, f in th['tasks']])
         logs = _slot_logs(w, nslots)
@@ -441,7 +455,9 @@ def execute_threads(sc, stats):
                 break
         if vio:
             break
-    if not vio:
+    if sc.get('cross'):
+        stats['fault:cross_thread_nesting'] += 1
+    if not vio and not sc.get('cross'):
         logs = _slot_logs(world, nslots)
         for k in range(nslots):
             if logs[k] != solo_logs[k]:
@@ -602,6 +618,8 @@ def execute_sweep(sc, stats):
     stats['evals'] += 2
     stats['steps'] += refclock.steps
     vio = []
+    if sc.get('points') == 'cold':
+        return _sweep_cold(sc, stats, tasks, elems, a, b)
     if sc.get('points') == 'overlap2':
         return _sweep_overlap2(sc, stats, world, tasks, solo, logs, elems, a, b, nsteps)
     if 'ks' in sc:
@@ -650,6 +668,79 @@ def execute_sweep(sc, stats):
     stats['probe:sweep_%s' % sc.get('points', 'all')] += 1
     stats['probe:sweep_points[%s]' % ('<=500' if n <= 500 else ('<=1500' if n <= 1500 else '>1500'))] += 1
     sc['_nt'] = n > 0
+    sc['_schedule_observed'] = [n]
+    return vio
+
+
+def cold_run(slots, tasks, elems, schedule, clock_iso, rand, which=None, want_log=False):
+    """Runs in a pristine process (clean room): the two evaluations under `schedule`, or (which=t) task t alone.
+    First-use initialisation of anything the evaluations need happens inside this run."""
+    seams.CLOCK.set(clock_iso)
+    seams.CLOCK.tick = None
+    seams.RANDOM.c = rand
+    if which is not None:
+        w = World([slots[k] if k == which else None for k in (0, 1)])
+        clock = StepClock(steplog=want_log)
+        out = _eval(w, clock, tasks[which][0], tasks[which][1], elems)
+        return {'out': out, 'log': [('/formulas/' in f or '/helper/' in f) for f in clock.steplog] if want_log else None}
+    world = World(slots)
+    baton = Baton(2, schedule=schedule)
+    got = [None, None]
+
+    def make_body(t):
+        def body(clock):
+            got[t] = _eval(world, clock, tasks[t][0], tasks[t][1], elems)
+        return body
+    g0 = globalstate.snapshot()
+    baton.run([make_body(0), make_body(1)])
+    g1 = globalstate.snapshot()
+    return {'got': got, 'errors': baton.errors[:2], 'state_diff': globalstate.diff(g0, g1)}
+
+
+def _sweep_cold(sc, stats, tasks, elems, a, b):
+    """Every run in its own pristine process: B's complete evaluation interposed after step k of A's FIRST-EVER
+    evaluation in that process (lazy imports, tables built on first use, caches filled on first use)."""
+    from hxsim import cleanroom
+    slots = sc['slots']
+    solo = []
+    for t in (0, 1):
+        r = cleanroom.call('checks.c03', 'cold_run', slots, tasks, elems, None, sc['clock'], sc['rand'], t, t == a)
+        solo.append(r['out'])
+        if t == a:
+            body = r['log']
+    n = len(body)
+    if 'ks' in sc:
+        ks = list(sc['ks'])
+    else:
+        off = sc.get('_run', 0) % 5
+        ks = [k for k in range(1, n + 1) if body[k - 1] or k % 5 == off]
+        if len(ks) > 150:
+            step = len(ks) // 150 + 1
+            ks = ks[sc.get('_run', 0) % step::step]
+    vio = []
+    for k in ks:
+        r = cleanroom.call('checks.c03', 'cold_run', slots, tasks, elems, [[a, k], [b, 1 << 40]], sc['clock'], sc['rand'])
+        if r['errors']:
+            raise HarnessStuck('simulated thread failed in the harness: %s' % r['errors'])
+        stats['evals'] += 2
+        stats['fault:cold_start_interposition_point'] += 1
+        got = r['got']
+        bad = None
+        if got != solo:
+            t = 0 if got[0] != solo[0] else 1
+            bad = {'invariant': 'T1_solo_outcome', 'sig': 'T1:cold',
+                   'detail': {'thread': t, 'formula': _esc(tasks[t][1]), 'other_formula': _esc(tasks[1 - t][1]), 'concurrent': got[t],
+                              'solo': solo[t], 'interposed_after_step': k, 'of_steps': n, 'suspended_thread': a,
+                              'note': 'every run in its own pristine process: first use of whatever the evaluations need'}}
+        elif r['state_diff']:
+            bad = {'invariant': 'S1_process_state_changed', 'sig': 'S1:' + ','.join(sorted(r['state_diff'])),
+                   'detail': {'changed': r['state_diff'], 'interposed_after_step': k}}
+        if bad:
+            vio.append(bad)
+            sc['ks'] = [k]
+            break
+    stats['probe:sweep_cold'] += 1
+    sc['_nt'] = len(ks) > 0
     sc['_schedule_observed'] = [n]
     return vio
 
@@ -858,7 +949,7 @@ def describe():
                 'references; evaluations = top-level evaluations under the schedule / outer evaluations; distinct = distinct '
                 '(slots, tasks, observed decision list) resp. (slots, outer formula); non-trivial = at least one context switch '
                 'happened inside an evaluation resp. at least one nested evaluation was actually performed',
-        'fault_kinds': ['ctx_switch', 'schedule_random', 'schedule_single', 'schedule_pingpong', 'single_interposition_point', 'double_preemption_point',
+        'fault_kinds': ['ctx_switch', 'schedule_random', 'schedule_single', 'schedule_pingpong', 'single_interposition_point', 'double_preemption_point', 'cold_start_interposition_point', 'cross_thread_nesting',
                         'nested_other', 'nested_same', 'nested_build', 'nested_depth2', 'cb_raise', 'listener_raise',
                         'isolation_op_var', 'isolation_op_fn', 'isolation_op_on', 'isolation_op_once', 'isolation_op_off',
                         'isolation_op_offcb'],
